@@ -1029,7 +1029,7 @@ func (l *lexer) scanRawToken() int {
 				r, err := l.read()
 				switch {
 				case err != nil:
-					l.comment()
+					l.comment(true)
 					if err == io.EOF {
 						return 0
 					}
@@ -1040,7 +1040,7 @@ func (l *lexer) scanRawToken() int {
 				}
 				l.b.WriteRune(r)
 			}
-			l.comment()
+			l.comment(true)
 			l.mark(0)
 		default:
 			l.b.WriteRune(r)
@@ -1620,15 +1620,15 @@ func (l *lexer) linebreak() bool {
 	for {
 		r, err := l.read()
 		if err != nil {
-			l.comment()
+			l.comment(hash)
 			return false
 		}
 
 		switch r {
 		case '\n':
 			// <newline>
+			l.comment(hash)
 			hash = false
-			l.comment()
 			l.mark(0)
 			if l.heredoc.exists() && !l.scanHeredoc() {
 				return false
@@ -1658,8 +1658,10 @@ func (l *lexer) linebreak() bool {
 	}
 }
 
-func (l *lexer) comment() {
-	if l.b.Len() != 0 {
+// comment records the comment whose text has been collected; hash tells
+// whether a '#' was seen (a comment may be empty).
+func (l *lexer) comment(hash bool) {
+	if hash {
 		l.comments = append(l.comments, &ast.Comment{
 			Hash: l.pos,
 			Text: l.b.String(),
